@@ -35,6 +35,10 @@ type Run struct {
 	gcEvery  bool
 }
 
+// BeginFinal implements wx.Finalizer: with VERIF_GC_EVERY_OP set, a garbage collection is forced immediately
+// before and after the operation under test of every explored history.
+func (r *Run) BeginFinal() { r.gcEvery = gcEveryOp }
+
 // Hist implements wx.Historian.
 func (r *Run) Hist() uint64 { return r.hist }
 
@@ -487,11 +491,13 @@ func (r *Run) Apply(op wx.Op) wx.Result {
 		r.lis.begin(r.m)
 	}
 	var o obs
-	if r.gcEvery || gcEveryOp {
+	gc := r.gcEvery
+	r.gcEvery = false
+	if gc {
 		runtime.GC()
 	}
 	pv := r.exec(op, &o)
-	if r.gcEvery || gcEveryOp {
+	if gc {
 		runtime.GC()
 	}
 	switch ex.Class {
